@@ -26,7 +26,7 @@ import time
 from . import common
 
 CASE_TIMEOUT = 5.0  # wall-clock seconds for exec() of one line
-MAX_STAGES = 3
+MAX_STAGES = 4
 
 _SH = """#!/bin/sh
 in=""
@@ -251,6 +251,8 @@ def _child(case, resfd):
         XSH.env["PWD"] = work
         XSH.env["OLDPWD"] = work
         XSH.env["XONSH_SUBPROC_RAISE_ERROR"] = False
+        for _k, _v in (case.get("env") or {}).items():
+            XSH.env[_k] = _v
         rec = {"args": None}
 
         @unthreadable
